@@ -1,4 +1,4 @@
-from contracts import watch, depsgen
+from contracts import watch, depsgen, indirect
 
 def build(tier):
-    return dict(targets=watch.targets(tier) + depsgen.targets(tier) + depsgen.targets_update(tier) + depsgen.targets_triggers(tier), assumptions=["deps.py: only visit_call_expr's __call__ dependency is under contract; completeness of the dependency map as a whole is not decided"], trusted_base=[])
+    return dict(targets=watch.targets(tier) + depsgen.targets(tier) + depsgen.targets_update(tier) + depsgen.targets_triggers(tier) + indirect.targets_trigger_cover(tier), assumptions=["deps.py: only visit_call_expr's __call__ dependency is under contract; completeness of the dependency map as a whole is not decided"], trusted_base=[])
